@@ -450,8 +450,15 @@ def udpRun (j : Json) : Except String Json := do
   let packet ← bytesOfJson (← j.getObjVal? "packet")
   let outsJ ← (← j.getObjVal? "outs").getArr?
   let outs ← outsJ.toList.mapM outcomeOfJson
-  let f := Udp.sendUdp packet (← getNat j "timeout") (← getNat j "retries") outs
-  let res : Json := match f.result with
+  let tmo ← getNat j "timeout"
+  let rtr ← getNat j "retries"
+  let cancelAt : Option Nat := match j.getObjVal? "cancel" with
+    | .ok c => c.getNat?.toOption
+    | .error _ => none
+  let (f, cancelled) : Udp.Final × Bool := match cancelAt with
+    | some n => Udp.sendUdpCancel packet tmo rtr outs n
+    | none => (Udp.sendUdp packet tmo rtr outs, false)
+  let res : Json := if cancelled then toJson (#[toJson "cancelled"] : Array Json) else match f.result with
     | .ok b => toJson (#[toJson "ok", toJson (toHex b)] : Array Json)
     | .error .timeout => toJson (#[toJson "error", toJson "timeout"] : Array Json)
     | .error .osError => toJson (#[toJson "error", toJson "oserror"] : Array Json)
